@@ -88,6 +88,9 @@ func run(c Case) (res vh.Result) {
 		k++
 		fmt.Fprintf(&sb, "  - name: c%d\n    call:\n      func: verifprobe.P(\"crit:%s\")\n      trigger: %s+0\n      timeout: 5s\n      critical: true\n", k, key, m)
 	}
+	// ... and one in front of everything a START does (before the negative-weight probes, before the run number is taken)
+	k++
+	fmt.Fprintf(&sb, "  - name: c%d\n    call:\n      func: verifprobe.P(\"crit:start/early\")\n      trigger: before_START_ACTIVITY-3\n      timeout: 5s\n      critical: true\n", k)
 	w.WriteWorkflow(wf, sb.String())
 
 	var mu sync.Mutex
@@ -154,6 +157,7 @@ func run(c Case) (res vh.Result) {
 		endedBy   string
 		stopDone  bool // STOP_ACTIVITY reached after_STOP_ACTIVITY
 		startedOK bool
+		noRun     bool // a START vetoed before it took a run number: not a run
 		finalVars map[string]string
 	}
 	var runs []*runRec
@@ -190,7 +194,8 @@ func run(c Case) (res vh.Result) {
 			mark := w.Note("op %d %s %s", oi, op.Kind, op.Moment)
 			rep, err := w.Control(id, pb.ControlEnvironmentRequest_START_ACTIVITY, 60*time.Second)
 			setFail("", false)
-			r := &runRec{startSeq: mark}
+			// (a START vetoed in front of everything it does has not begun a run: what the previous run left behind stays as it is)
+			r := &runRec{startSeq: mark, noRun: op.Kind == "start-hookfail" && op.Moment == "early"}
 			// the number this START obtained, as seen by its own +1 probe
 			for _, p := range w.Probes() {
 				if p.Seq > mark && p.Env == id && p.Arg == "before_START_ACTIVITY/+1" && p.Phase == "start" {
@@ -210,8 +215,20 @@ func run(c Case) (res vh.Result) {
 				st, _ := w.WaitState(id, 5*time.Second, "ERROR")
 				state = st
 				r.endedBy = "failed-start"
+				if op.Kind == "start-taskfail" {
+					// the run was opened (number taken, start time set, shown to the hooks and pushed to the tasks) and ended by the
+					// tasks' failure: it is closed like any other run that ends in error
+					r.endedBy = "tasks-failed-to-start"
+				}
 				errEnd = true
 				r.finalVars = userVars()
+				if op.Kind == "start-taskfail" {
+					// the completion stamp is written at after_GO_ERROR, a moment after the state reads ERROR
+					for dl := time.Now().Add(3 * time.Second); time.Now().Before(dl) && (r.finalVars["run_end_time_ms"] == "" || r.finalVars["run_end_completion_time_ms"] == ""); {
+						time.Sleep(50 * time.Millisecond)
+						r.finalVars = userVars()
+					}
+				}
 			}
 		case "stop", "stop-hookfail", "stop-taskfail":
 			if state != "RUNNING" {
@@ -458,8 +475,11 @@ func run(c Case) (res vh.Result) {
 				// V9: what the run left behind is not stamped a second time before the next run starts (each of the four is set at
 				// most once per run): a later hook sees either nothing or the value the run ended with
 				nextStart := int64(1) << 62
-				if ri+1 < len(runs) {
-					nextStart = runs[ri+1].startSeq
+				for _, nr := range runs[ri+1:] {
+					if !nr.noRun {
+						nextStart = nr.startSeq
+						break
+					}
 				}
 				if r.stopDone && s.seq < nextStart {
 					for i := range tsKeys {
@@ -578,6 +598,9 @@ func gen(t *rapid.T) Case {
 		}
 		if strings.HasSuffix(op.Kind, "hookfail") {
 			op.Moment = rapid.SampledFrom([]string{"before", "leave", "enter", "after"}).Draw(t, "moment")
+			if op.Kind == "start-hookfail" && rapid.IntRange(0, 3).Draw(t, "early") == 0 {
+				op.Moment = "early" // the START is vetoed before it has taken a run number
+			}
 		}
 		c.Ops = append(c.Ops, op)
 		switch op.Kind {
@@ -614,5 +637,8 @@ func TestFixed(t *testing.T) {
 	for _, m := range []string{"before", "leave", "enter", "after"} {
 		vh.Fixed(t, prop, "stop-hook-fails-"+m, Case{NTasks: 1, Ops: []Op{{Kind: "start"}, {Kind: "stop"}, {Kind: "start"}, {Kind: "stop-hookfail", Moment: m}}}, vh.Confirmed(run))
 		vh.Fixed(t, prop, "start-hook-fails-"+m, Case{NTasks: 1, Ops: []Op{{Kind: "start"}, {Kind: "stop"}, {Kind: "start-hookfail", Moment: m}}}, vh.Confirmed(run))
+		if m == "before" {
+			vh.Fixed(t, prop, "start-vetoed-before-the-run-number-is-taken", Case{NTasks: 1, Ops: []Op{{Kind: "start"}, {Kind: "stop"}, {Kind: "start-hookfail", Moment: "early"}}}, vh.Confirmed(run))
+		}
 	}
 }
